@@ -84,7 +84,9 @@ func (fr *frame) havocCall(m *ModSet, st *State, resT types.Type, what string) V
 	nb := fx.enc.Decl("brk.call", "Int")
 	fx.enc.Assume(Ge(nb, fx.brkOf(st)))
 	st.Brk = nb
-	return fr.freshResult(resT)
+	r := fr.freshResult(resT)
+	fx.assumeBelowBrk(r, st)
+	return r
 }
 
 func (fr *frame) freshResult(resT types.Type) Value {
@@ -214,7 +216,12 @@ func (fr *frame) callContract(callee *ssa.Function, ct *Contract, args []Value, 
 	name := FuncName(callee)
 	sub := &frame{fx: fx, fn: callee, name: name, params: fr.bindParams(callee, args), level: fr.level, prefix: fr.prefix, depth: fr.depth, curReach: fr.curReach}
 	pre := st.Clone()
-	ev := sub.env(st, nil, nil)
+	if callee.Signature.Recv() != nil && len(args) > 0 {
+		if _, ok := under(callee.Params[0].Type()).(*types.Pointer); ok {
+			fr.oblige("nil", "recv."+callee.Name(), Ne(args[0].T, "0"), pos)
+		}
+	}
+	ev := sub.env(st, pre, nil)
 	ev.local = nil
 	for _, group := range [][]*Clause{ct.Requires, ct.Preserves} {
 		for _, c := range group {
@@ -255,6 +262,7 @@ func (fr *frame) callContract(callee *ssa.Function, ct *Contract, args []Value, 
 		st.Brk = nb
 	}
 	res = fr.freshResult(resT)
+	fx.assumeBelowBrk(res, st)
 	ev2 := sub.env(st, pre, nil)
 	ev2.local = nil
 	bindResults(ev2, callee, res)
